@@ -64,7 +64,10 @@ const (
 	sfExpiredKey    = 3
 	sfNonUTF8Body   = 4 // O signs and sends a JSON body that is not UTF-8
 	sfOverlongName  = 5 // O's DNS name has 256 characters (grammar: 1*255); recorded, not judged
+	sfOddKeyID      = 6 // O's key IDs are outside the key-ID grammar (quote, backslash, comma, ...): the sender may refuse, the receiver may refuse; recorded, not judged, but whatever is accepted must be what was signed
 )
+
+var oddKeyIDs = []string{"ed25519:a\"b", "ed25519:a\\b", "ed25519:k,1", "ed25519:k 1", "ed25519:k=1", "ed25519:\tk", "ed25519:\u00e9", "ed25519:a\",origin=\"third.example\",key=\"ed25519:k1", "ed25519:\x7f", "ed25519:"}
 
 var senderNames = []string{"direct", "client", "client_api"}
 
@@ -145,7 +148,7 @@ func body(r *sim.Run) {
 	s.wire = t.Bool()
 	s.callback = t.Bool()
 	s.vmode = t.Weighted([]int{7, 3})
-	senderFault := t.Weighted([]int{48, 3, 3, 3, 3, 1})
+	senderFault := t.Weighted([]int{48, 3, 3, 3, 3, 1, 2})
 	if senderFault == sfNonUTF8Body && s.senderMode == sendAPI {
 		s.senderMode = sendClient
 	}
@@ -173,6 +176,9 @@ func body(r *sim.Run) {
 	base := t.Intn(len(keyIDPool))
 	s.nextKey = func() gmsl.KeyID {
 		id := gmsl.KeyID(keyIDPool[base%len(keyIDPool)])
+		if senderFault == sfOddKeyID {
+			id = gmsl.KeyID(oddKeyIDs[base%len(oddKeyIDs)])
+		}
 		base++
 		return id
 	}
@@ -273,6 +279,8 @@ func body(r *sim.Run) {
 		r.Fault("signed_with_expired_key")
 	case sfOverlongName:
 		s.senderMark = &mark{class: neutral, kind: "origin_dns_name_over_255"}
+	case sfOddKeyID:
+		s.senderMark = &mark{class: neutral, kind: "key_id_outside_grammar"}
 	case sfNonUTF8Body:
 		s.senderMark = &mark{class: fault, kind: "non_utf8_body_signed", oracle: "refuse_body_format", codes: []int{400}}
 	}
@@ -349,6 +357,10 @@ func body(r *sim.Run) {
 			}
 			if senderFault == sfNonUTF8Body {
 				r.Probe("sender_refused_non_utf8_body")
+				return
+			}
+			if senderFault == sfOddKeyID {
+				r.Probe("sender_refused_key_id_outside_grammar")
 				return
 			}
 			if sg.hasBody && keyNeedsEscape(sg.body) {
@@ -445,6 +457,10 @@ func (s *sce) sendViaAPI(ctx context.Context, k *world.Key) {
 	if len(s.deliveries) == 0 {
 		if s.senderMark != nil && s.senderMark.kind == "invalid_origin_signed" {
 			r.Probe("sender_refused_invalid_origin")
+			return
+		}
+		if s.senderMark != nil && s.senderMark.kind == "key_id_outside_grammar" {
+			r.Probe("sender_refused_key_id_outside_grammar")
 			return
 		}
 		r.Violate(P, "complete", "sender_error", "client API %d sent nothing: %v", api, err)
